@@ -4,7 +4,8 @@
 
   FULL STATEMENT: for every fuel and every prefix of the run, the costs of the yielded programs are
   non-decreasing (PROVED: C03_Beap_order, positive rule costs) and every derivable program strictly cheaper
-  than a yielded one was yielded before it (prefix completeness: NOT proved, compared on every case).
+  than a yielded one was yielded before it (prefix completeness: PROVED, C03_Beap_prefix_complete, positive rule
+  costs, finite and recursive grammars, any filter — "derivable" then reads "all sub-programs accepted").
 
   Proved here (every grammar with distinct dict keys, every cost table, every fuel):
   THE MINIMAL COSTS (beap_search.py:79-119, the part of the enumerator the order rests on):
@@ -65,14 +66,21 @@
         of the programs produced by `take k` from the fresh generator are pairwise non-decreasing in the
         order of production (every prefix of the run, finite or recursive grammar), and every yielded
         program is derivable.
-  Compared on every generated case, not proved: prefix completeness and the sortedness of the cost
-  lists (exact Fraction cost of every yielded program, brute-force expansion below a cost bound).
+  PREFIX COMPLETENESS (round 2):
+    * C03_Beap_prefix_complete — for every fuel and every k: when a program of cost y is among the programs produced
+        by `take k`, every program of the start symbol of strictly smaller cost all of whose sub-programs are accepted
+        by the filter is among them (C03_Beap_prefix_complete_nofilter: every priced derivation).  Proof:
+        PS/Proofs/Enum/BeapCompl*.lean (completed region CR, frontier FR with the producer chain BelowArgs, frame
+        invariant FrK, protection Keep4; mutual induction `compl_all`).
+  Not proved: termination of one `next` call.  Still compared on every generated case: exact Fraction cost of
+  every yielded program, brute-force expansion below a cost bound.
 -/
 import PS.Proofs.Enum.BeapHeadMin
 import PS.Proofs.Enum.BeapOrderRun
 import PS.Proofs.Enum.BeapOrderFinal
 import PS.Proofs.Enum.BeapAcyclic
 import PS.Proofs.Enum.BeapFreshRun
+import PS.Proofs.Enum.BeapComplFinal
 import PS.Props.C02_Beap
 namespace PS.C03Beap
 open PS PS.G PS.Beap PS.Heapq PS.C02Beap
@@ -303,6 +311,25 @@ theorem C03_Beap_order (E : Env S) (hnd : RowsNodup E.G) (hst : StableAfter E) (
   refine ⟨sorted_of_index E g.st (clSorted_of_oi E g.st hgo.1) ys idx h1 h2, fun p hp => ?_⟩
   obtain ⟨i, _, c, _, hc⟩ := sorted_of_index.mem_all2 h1 p hp
   exact ⟨c.fin, hc⟩
+
+/-- **PREFIX COMPLETENESS (full statement, positive rule costs, finite and recursive grammars)**: on every prefix
+    of the run (every fuel, every k), when a program `p` of cost `y` has been yielded, EVERY program `q` of the
+    start symbol of strictly smaller cost all of whose sub-programs are accepted by the filter (`clean`; every
+    derivable program when no filter is installed) has been yielded.  Together with C03_Beap_order (`q` cannot
+    not come after `p` when it is strictly cheaper: the costs are non-decreasing) this is the user-facing statement of C03. -/
+theorem C03_Beap_prefix_complete (E : Env S) (hnd : RowsNodup E.G) (hst : StableAfter E) (hprod : Productive E) (hpos : PosW E)
+    (fuel k : Nat) (g : Gen S) (ys : List Prog) (fin : Bool) (h : take E fuel k (Gen.new E.G) [] = some (g, ys, fin))
+    (p q : Prog) (x y : Rat) (hp : p ∈ ys) (hy : costOf E p E.G.start = some y) (hcl : clean E.filter q = true)
+    (hx : costOf E q E.G.start = some x) (hlt : x < y) : q ∈ ys :=
+  prefix_complete E hnd hst hprod hpos fuel k (g, ys, fin) h p q x y hp hy hcl hx hlt
+
+/-- prefix completeness without a filter: every derivable program strictly cheaper than a yielded one was yielded -/
+theorem C03_Beap_prefix_complete_nofilter (E : Env S) (hf : ∀ t, E.filter t = true) (hnd : RowsNodup E.G) (hst : StableAfter E)
+    (hprod : Productive E) (hpos : PosW E)
+    (fuel k : Nat) (g : Gen S) (ys : List Prog) (fin : Bool) (h : take E fuel k (Gen.new E.G) [] = some (g, ys, fin))
+    (p q : Prog) (x y : Rat) (hp : p ∈ ys) (hy : costOf E p E.G.start = some y)
+    (hx : costOf E q E.G.start = some x) (hlt : x < y) : q ∈ ys :=
+  C03_Beap_prefix_complete E hnd hst hprod hpos fuel k g ys fin h p q x y hp hy (clean_accept_all E.filter hf q) hx hlt
 end
 
 /-- `HeapElement.__lt__` is a strict weak order -/
@@ -371,6 +398,15 @@ example : ∃ g ys fin, take demoE 300 12 (Gen.new demoG) [] = some (g, ys, fin)
     simp only [hp, Option.map_some, Option.some.injEq, Prod.mk.injEq] at h
     exact ⟨g, ys, fin, rfl, h.1, h.2⟩
 
+open PS.C02Beap in
+/-- non-vacuity of C03_Beap_prefix_complete: all hypotheses hold on the (recursive) demo grammar; by the run above
+    the premises are satisfiable (a program of cost 12 is yielded, programs of cost 1, 5, 7, … exist) -/
+example (fuel k : Nat) (g : Gen Nat) (ys : List Prog) (fin : Bool) (h : take demoE fuel k (Gen.new demoG) [] = some (g, ys, fin))
+    (p q : Prog) (x y : Rat) (hp : p ∈ ys) (hy : costOf demoE p demoG.start = some y)
+    (hx : costOf demoE q demoG.start = some x) (hlt : x < y) : q ∈ ys :=
+  C03_Beap_prefix_complete_nofilter demoE (fun _ => rfl) demo_rowsNodup (stableAfter_of_rec demoE rfl) demo_productive demo_posW
+    fuel k g ys fin h p q x y hp hy hx hlt
+
 /-! ### non-vacuity on a finite grammar that `is_recursive()` does not flag: `X -> a | m(Y,Y)`, `Y -> a | b` (C12_Beap.mG) -/
 def fX : NT Nat Unit := (Ty.base "int", (0, ()))
 def fY : NT Nat Unit := (Ty.base "int", (1, ()))
@@ -403,6 +439,13 @@ example (fuel k : Nat) (g : Gen Nat) (ys : List Prog) (fin : Bool) (h : take fin
     ys.Pairwise (fun p q => ∀ a b, costOf finE p finG.start = some a → costOf finE q finG.start = some b → a ≤ b) :=
   (C03_Beap_order finE fin_rowsNodup (C03_Beap_stable_of_acyclic finE fin_rowsNodup finRank fin_ranked) fin_productive
     (posW_of_check finE (by decide +kernel)) fuel k g ys fin h).1
+
+/-- prefix completeness applies to the finite grammar as well -/
+example (fuel k : Nat) (g : Gen Nat) (ys : List Prog) (fin : Bool) (h : take finE fuel k (Gen.new finG) [] = some (g, ys, fin))
+    (p q : Prog) (x y : Rat) (hp : p ∈ ys) (hy : costOf finE p finG.start = some y)
+    (hx : costOf finE q finG.start = some x) (hlt : x < y) : q ∈ ys :=
+  C03_Beap_prefix_complete_nofilter finE (fun _ => rfl) fin_rowsNodup (C03_Beap_stable_of_acyclic finE fin_rowsNodup finRank fin_ranked)
+    fin_productive (posW_of_check finE (by decide +kernel)) fuel k g ys fin h p q x y hp hy hx hlt
 
 /-- and the run is not vacuous: the five programs come out by cost 1, 3, 4, 4, 5 and the generator stops -/
 example : (take finE 100 10 (Gen.new finG) []).map (fun r => (r.2.1.map (fun p => costOf finE p finG.start), r.2.2)) =
